@@ -7,6 +7,7 @@ import LlirModel.Drv.TypingOps
 import LlirModel.Drv.NumOps
 import LlirModel.Drv.MdOps
 import LlirModel.Drv.ModOps
+import LlirModel.Drv.CoreOps
 open Llir Llir.Drv
 
 def dispatch (op : String) (args : List String) : String :=
@@ -35,6 +36,9 @@ def dispatch (op : String) (args : List String) : String :=
   | some r => r
   | none =>
   match modOps op args with
+  | some r => r
+  | none =>
+  match coreOps op args with
   | some r => r
   | none => "unknown-op"
 
